@@ -154,6 +154,7 @@ func init() {
 		Rules:       []string{"E1"},
 		Run: func(c *Ctx) {
 			RunE1(c, "C05", obs)
+			RunIssuerCoverage(c, "E7.routes.issuer-interceptor", []string{"KeysEndpoint"}) // handlers verify tokens / assertions against the issuer the interceptor puts into the context
 			RunHandlerValues(c)
 			RunCallers(c, "E1.cc-sink-table", "op.CreateClientCredentialsTokenResponse", []string{"op.ClientCredentialsExchange", "op.(*LegacyServer).ClientCredentialsExchange"}, "client_credentials token sink")
 			RunCallers(c, "E1.te-sink-table", "op.CreateTokenExchangeResponse", []string{"op.TokenExchange", "op.(*LegacyServer).TokenExchange"}, "token-exchange token sink")
